@@ -37,4 +37,12 @@ theorem loops_yield_each_iteration : Extracted.loopsYieldEachIteration = treeYie
 /-- `_timer` remembers a final failure in `forever_stopped` at once (the model's label `failForGood`) -/
 theorem timer_failure_is_forever : Extracted.timerFailureIsForever = true := by decide
 
+/-- a DELETED event stops what runs for the object and nothing is spawned for a gone object (since 25da2b9):
+    the variant `stopped_when_object_disappears` is about -/
+theorem stops_gone : Extracted.stopsGone = treeStopsGone := by decide
+
+/-- the killer's `finally:` marks the memories before its sweep, `spawn_daemons` obeys the mark (since 1d3a667):
+    the variant `stopped_when_operator_exits` / `nothing_spawned_while_exiting` are about -/
+theorem marks_exiting : Extracted.marksExiting = treeMarksExiting := by decide
+
 end Kopf.C09.Tie
